@@ -150,15 +150,69 @@ func (st *signerState) present() {
 	st.tampered = false
 }
 
+// guarded places b in the middle of a larger buffer filled with a pattern and returns the sub-slice (its capacity
+// reaches to the end of the buffer, as for a key stored inside a bigger array) and a function telling whether any
+// byte of the whole buffer - the operand or its surroundings - was changed.
+func guarded(b []byte) ([]byte, func() string) {
+	buf := make([]byte, 24+len(b)+104)
+	for i := range buf {
+		buf[i] = byte(0xC3 ^ i*7)
+	}
+	copy(buf[24:], b)
+	orig := append([]byte(nil), buf...)
+	return buf[24 : 24+len(b)], func() string {
+		for i := range buf {
+			if buf[i] != orig[i] {
+				where := "the operand itself"
+				if i < 24 {
+					where = "memory before the operand"
+				} else if i >= 24+len(b) {
+					where = "memory behind the operand (within the capacity of the slice)"
+				}
+				return fmt.Sprintf("%s changed at offset %d: now %x", where, i-24, buf[24:24+len(b)+64])
+			}
+		}
+		return ""
+	}
+}
+
 func libEcdsaSign(rfc bool, d32, msg []byte) (r, s *big.Int, err error, p string) {
+	r, s, err, p, _ = libEcdsaSignG(rfc, d32, msg)
+	return
+}
+
+// libEcdsaSignG signs with key and digest passed as sub-slices of guarded buffers and signs a SECOND time with the
+// very same slices; changed != "" when an operand or its surroundings were modified or the second signature of the
+// deterministic mode differs / the second signature is not valid for the original key.
+func libEcdsaSignG(rfc bool, d32, msg []byte) (r, s *big.Int, err error, p string, changed string) {
 	signMu.Lock()
 	defer signMu.Unlock()
+	key, keyChk := guarded(d32)
+	dig, digChk := guarded(msg)
 	p = safely(func() {
 		btc.EcdsaSignWithRFC6979 = rfc
-		rr, ss, e := btc.EcdsaSign(d32, msg)
+		rr, ss, e := btc.EcdsaSign(key, dig)
 		err = e
 		if rr != nil && ss != nil {
 			r, s = new(big.Int).Set(rr), new(big.Int).Set(ss)
+		}
+		if c := keyChk(); c != "" {
+			changed = "secret key: " + c
+		} else if c := digChk(); c != "" {
+			changed = "digest: " + c
+		}
+		// the same key and digest objects again
+		r2, s2, e2 := btc.EcdsaSign(key, dig)
+		if changed == "" && e == nil && r != nil {
+			q := ref.BaseMul(ref.FromBytes(d32))
+			switch {
+			case e2 != nil || r2 == nil:
+				changed = "second signature with the same key object fails"
+			case !ref.EcdsaVerify(q, msg, ref.Sig{R: r2, S: s2}):
+				changed = fmt.Sprintf("second signature with the same key object is not valid for the key: r=%x s=%x", r2, s2)
+			case rfc && (r2.Cmp(r) != 0 || s2.Cmp(s) != 0):
+				changed = "second RFC 6979 signature with the same key object differs from the first"
+			}
 		}
 	})
 	return
@@ -169,11 +223,14 @@ func doSign(sum *Summary, st *signerState, step Step, mc string, fail func(strin
 	k := st.kind
 	switch k {
 	case "rand", "rfc":
-		r, s, err, p := libEcdsaSign(k == "rfc", st.d32, st.msg)
-		sum.count(0, 1, 0)
+		r, s, err, p, changed := libEcdsaSignG(k == "rfc", st.d32, st.msg)
+		sum.count(0, 2, 0)
 		if p != "" || err != nil || r == nil {
 			fail("C03:signer:"+k+":fails", fmt.Sprintf("btc.EcdsaSign fails: %v %s", err, p), nil)
 			return false
+		}
+		if changed != "" {
+			fail("C03:signer:"+k+":operand-changed", "btc.EcdsaSign does not leave its operands alone (key and digest passed as sub-slices of larger buffers, then used for a second signature): "+changed, nil)
 		}
 		st.r, st.s, st.sig64 = r, s, nil
 		st.present()
@@ -214,12 +271,27 @@ func doSign(sum *Summary, st *signerState, step Step, mc string, fail func(strin
 			}
 		}
 	case "bip340":
-		var sig []byte
-		p := safely(func() { sig = secp256k1.SchnorrSign(st.msg, st.d32, st.aux) })
-		sum.count(0, 1, 0)
+		var sig, sig2 []byte
+		gm, gmChk := guarded(st.msg)
+		gk, gkChk := guarded(st.d32)
+		ga, gaChk := guarded(st.aux)
+		p := safely(func() {
+			sig = secp256k1.SchnorrSign(gm, gk, ga)
+			sig = append([]byte(nil), sig...)
+			sig2 = secp256k1.SchnorrSign(gm, gk, ga)
+		})
+		sum.count(0, 2, 0)
 		if p != "" || len(sig) != 64 {
 			fail("C03:signer:bip340:fails", "secp256k1.SchnorrSign fails: "+p, nil)
 			return false
+		}
+		for name, chk := range map[string]func() string{"message": gmChk, "secret key": gkChk, "aux": gaChk} {
+			if c := chk(); c != "" {
+				fail("C03:signer:bip340:operand-changed", "secp256k1.SchnorrSign does not leave its operands alone: "+name+": "+c, nil)
+			}
+		}
+		if !bytes.Equal(sig, sig2) {
+			fail("C03:signer:bip340:operand-changed", "a second BIP 340 signature with the same operand objects differs from the first", map[string]string{"sig": hx(sig), "again": hx(sig2)})
 		}
 		st.sig64, st.r, st.s = append([]byte(nil), sig...), nil, nil
 		st.present()
